@@ -412,6 +412,7 @@ impl Report {
 use std::cell::RefCell;
 thread_local! {
     static LAST_PANIC: RefCell<Option<PanicInfo>> = const { RefCell::new(None) };
+    static CATCH_DEPTH: std::cell::Cell<u32> = const { std::cell::Cell::new(0) };
 }
 
 #[derive(Clone, Debug)]
@@ -462,7 +463,8 @@ pub fn install_panic_hook(verbose: bool) {
             .location()
             .map(|l| (l.file().to_string(), l.line()))
             .unwrap_or_default();
-        if verbose {
+        // a panic outside `catch` is a bug of the harness itself: always show it
+        if verbose || CATCH_DEPTH.with(|d| d.get()) == 0 {
             eprintln!("PANIC at {}:{}: {}", file, line, message);
         }
         LAST_PANIC.with(|p| {
@@ -478,7 +480,10 @@ pub fn install_panic_hook(verbose: bool) {
 /// Run `f`, catching panics.  Returns Err(info) if it panicked.
 pub fn catch<R>(f: impl FnOnce() -> R) -> Result<R, PanicInfo> {
     LAST_PANIC.with(|p| *p.borrow_mut() = None);
-    match std::panic::catch_unwind(std::panic::AssertUnwindSafe(f)) {
+    CATCH_DEPTH.with(|d| d.set(d.get() + 1));
+    let res = std::panic::catch_unwind(std::panic::AssertUnwindSafe(f));
+    CATCH_DEPTH.with(|d| d.set(d.get() - 1));
+    match res {
         Ok(r) => Ok(r),
         Err(_) => Err(LAST_PANIC.with(|p| p.borrow_mut().take()).unwrap_or(PanicInfo {
             message: "<unknown panic>".into(),
